@@ -2,7 +2,7 @@
     unit, list, prod, sumbool and sumor map to the OCaml types; N, positive, Z and nat stay the
     extracted inductive types. No [Extract Constant], no further [Extract Inductive]. *)
 From Coq Require Import Extraction ExtrOcamlBasic.
-From AnemoVerif Require Import Base Utf8 Bincode Status Wire SizeLimit Timeout AuthLayer Inflight Gcra Router Codegen ActivePeers MutualDial Dialer.
+From AnemoVerif Require Import Base Utf8 Bincode Status Wire SizeLimit Timeout AuthLayer Inflight Gcra Router Codegen ActivePeers MutualDial Dialer NetModel Tls.
 
 Extraction Language OCaml.
 
@@ -28,4 +28,6 @@ Separate Extraction
   ActivePeers.step ActivePeers.run ActivePeers.peers ActivePeers.tie_break ActivePeers.empty
   MutualDial.reach MutualDial.do_step MutualDial.enabled MutualDial.terminal MutualDial.init
   MutualDial.all_labels MutualDial.survivor MutualDial.converged
-  Dialer.check Dialer.b_update Dialer.backoff_duration Dialer.first_tick_after.
+  Dialer.check Dialer.b_update Dialer.backoff_duration Dialer.first_tick_after
+  NetModel.step NetModel.run NetModel.lists NetModel.admission NetModel.adversarial_hello_accepted NetModel.dial_outcome
+  Tls.accept_remote Tls.accept_client Tls.honest_cert Tls.honest_proof Tls.verify_cert.
